@@ -12,6 +12,8 @@ Inductive rawdg :=
 
 Inductive rawev :=
 | RHs (p idx key : int)
+| RHsu (p idx key : int)
+| RRestart
 | RAge (p ms : int)                       (* milliseconds *)
 | RDg (l : list rawdg).
 
@@ -47,6 +49,8 @@ Definition dec_dg (r : rawdg) : dgram :=
 Definition dec_ev (r : rawev) : event :=
   match r with
   | RHs p i k => Handshake (ni p) (ni i) (ni k)
+  | RHsu p i k => HandshakeUnconf (ni p) (ni i) (ni k)
+  | RRestart => Restart
   | RAge p s => Age (ni p) (ni s * 1000000)
   | RDg l => Dgrams (map dec_dg l)
   end.
@@ -84,7 +88,7 @@ Definition opt_fail (k : N) (o : option N) : list (N * N) :=
   match o with Some i => [(k, i)] | None => [] end.
 
 Definition init_state (t : list entry) (np : N) : state :=
-  {| s_tbl := t; s_peers := repeat {| k_prev := None; k_cur := None |} (N.to_nat np) |}.
+  {| s_tbl := t; s_peers := repeat {| k_prev := None; k_cur := None; k_next := None |} (N.to_nat np) |}.
 
 Definition check_case (c : case) : list (N * N) :=
   match c with
@@ -109,7 +113,8 @@ Fixpoint check_cases (ks : list case) (idx : N) : list (N * N * N) :=
    outcome of every datagram according to the model:
    [0 not transport / too short; 1 unknown index; 2 keypair expired; 3 does not authenticate;
     4 replayed or behind the window; 5 keepalive; 6 IPv4 length/header refused; 7 IPv6 length/header refused;
-    8 other version nibble; 9 source not allowed; 10 written; 11 handshakes; 12 age shifts] *)
+    8 other version nibble; 9 source not allowed; 10 written; 11 handshakes; 12 age shifts;
+    13 unconfirmed handshakes; 14 restarts; 15 accepted under the unconfirmed key (promotion)] *)
 Fixpoint bump (l : list N) (i : nat) : list N :=
   match l, i with
   | [], _ => []
@@ -123,7 +128,7 @@ Definition outcome (st : state) (d : dgram) : nat :=
   | Transport idx key tampered ctr plain =>
       match find_idx (s_peers st) idx 0 with
       | None => 1%nat
-      | Some (i, cur, k) =>
+      | Some (i, _, k) =>
           if RejectAfterTime <? k_age k then 2%nat
           else if tampered || negb (key =? k_key k) then 3%nat
           else if negb (accept (k_filter k) ctr RejectAfterMessages) then 4%nat
@@ -142,10 +147,21 @@ Definition outcome (st : state) (d : dgram) : nat :=
       end
   end.
 
+Definition promotes (st : state) (d : dgram) : bool :=
+  match d with
+  | Transport idx _ _ _ _ =>
+      match find_idx (s_peers st) idx 0, r_rx (snd (recv1 st d)) with
+      | Some (_, SNext, _), Some _ => true
+      | _, _ => false
+      end
+  | _ => false
+  end.
+
 Fixpoint stat_dgs (st : state) (l : list dgram) (a : list N) : state * list N :=
   match l with
   | [] => (st, a)
-  | d :: t => stat_dgs (fst (recv1 st d)) t (bump a (outcome st d))
+  | d :: t => stat_dgs (fst (recv1 st d)) t
+                (let a1 := bump a (outcome st d) in if promotes st d then bump a1 15 else a1)
   end.
 
 Fixpoint stat_evs (st : state) (evs : list event) (a : list N) : list N :=
@@ -153,6 +169,8 @@ Fixpoint stat_evs (st : state) (evs : list event) (a : list N) : list N :=
   | [] => a
   | Dgrams l :: t => let '(st', a') := stat_dgs st l a in stat_evs st' t a'
   | Handshake p i k :: t => stat_evs (fst (step st (Handshake p i k))) t (bump a 11)
+  | HandshakeUnconf p i k :: t => stat_evs (fst (step st (HandshakeUnconf p i k))) t (bump a 13)
+  | Restart :: t => stat_evs (fst (step st Restart)) t (bump a 14)
   | Age p n :: t => stat_evs (fst (step st (Age p n))) t (bump a 12)
   end.
 
@@ -163,4 +181,4 @@ Definition stats_case (a : list N) (c : case) : list N :=
   | Crashed => a
   end.
 
-Definition stats (ks : list case) : list N := fold_left stats_case ks [0;0;0;0;0;0;0;0;0;0;0;0;0].
+Definition stats (ks : list case) : list N := fold_left stats_case ks [0;0;0;0;0;0;0;0;0;0;0;0;0;0;0;0].
